@@ -17,7 +17,7 @@ from checks import c02, c07, c12
 
 PROP = "C14"
 NOMEM = "org.freedesktop.DBus.Error.NoMemory"
-OPS = ("copy", "edit", "build", "demarshal", "loader", "matchrule")
+OPS = ("copy", "edit", "build", "demarshal", "loader", "matchrule", "config")
 
 RULE_LIB = ("library part (harness/h_oom.c, libdbus' own injector _dbus_set_fail_alloc_counter / _failures): for every "
             "case the index k of the failing dbus_malloc/realloc is enumerated 0,1,2,... until the operation completes "
@@ -32,7 +32,10 @@ RULE_LIB = ("library part (harness/h_oom.c, libdbus' own injector _dbus_set_fail
             "(queue_messages retried while FALSE; popped messages == reference, loader not corrupted, every delivered "
             "descriptor is the same open file (st_dev/st_ino) as sent, canary descriptors opened after each failure "
             "survive, open-descriptor count back at baseline), bus_match_rule_parse (NULL+NoMemory or the reference "
-            "verdict)")
+            "verdict), dbus_message_demarshal of bytes the parser rejects (NoMemory or the same rejection, never a message), "
+            "bus_config_load of generated configuration files with every element kind, a generated policy and sometimes one "
+            "mistake (NULL+NoMemory, or the reference error, or a parser whose getters - type, user, addresses, mechanisms, "
+            "service/include directories, all limits, flags, the policy's verdict on four uids - equal the fault-free load)")
 
 _ENV_BASE = {"ASAN_OPTIONS": hrun.SAN_ENV["ASAN_OPTIONS"] + ":quarantine_size_mb=32"}
 
@@ -140,6 +143,70 @@ def _invalid_message(rng):
     return bytes.fromhex("6c01000100000000010000000000000000")
 
 
+_LIMIT_NAMES = ["max_incoming_bytes", "max_incoming_unix_fds", "max_outgoing_bytes", "max_outgoing_unix_fds", "max_message_size",
+                "max_message_unix_fds", "service_start_timeout", "auth_timeout", "pending_fd_timeout", "max_completed_connections",
+                "max_incomplete_connections", "max_connections_per_user", "max_pending_service_starts", "max_names_per_connection",
+                "max_match_rules_per_connection", "max_replies_per_connection", "reply_timeout", "max_containers",
+                "max_containers_per_user", "max_connections_per_container", "max_container_metadata_bytes"]
+
+
+def _config_text(rng):
+    """A bus configuration file: every element kind the parser knows, a generated policy, sometimes one mistake."""
+    from checks import c06
+    out = ['<!DOCTYPE busconfig PUBLIC "-//freedesktop//DTD D-Bus Bus Configuration 1.0//EN" '
+           '"http://www.freedesktop.org/standards/dbus/1.0/busconfig.dtd">', "<busconfig>"]
+    body = []
+    if rng.random() < 0.6:
+        body.append("<type>%s</type>" % rng.choice(["session", "system", "custom"]))
+    if rng.random() < 0.3:
+        body.append("<user>%s</user>" % rng.choice(["root", "daemon", "messagebus", "0"]))
+    for flag in ("fork", "syslog", "keep_umask", "allow_anonymous", "standard_session_servicedirs", "standard_system_servicedirs"):
+        if rng.random() < 0.2:
+            body.append("<%s/>" % flag)
+    if rng.random() < 0.3:
+        body.append("<pidfile>/run/verif-%d.pid</pidfile>" % rng.randint(0, 99))
+    if rng.random() < 0.3:
+        body.append("<servicehelper>/usr/lib/verif/helper%d</servicehelper>" % rng.randint(0, 9))
+    for _ in range(rng.choice([0, 1, 1, 2, 3])):
+        body.append("<listen>%s</listen>" % rng.choice(["unix:path=/tmp/verif-none-%d" % rng.randint(0, 99), "unix:tmpdir=/tmp",
+                                                         "tcp:host=localhost,port=0", "unix:abstract=verif%d" % rng.randint(0, 99)]))
+    for _ in range(rng.choice([0, 0, 1, 2, 3])):
+        body.append("<auth>%s</auth>" % rng.choice(["EXTERNAL", "DBUS_COOKIE_SHA1", "ANONYMOUS"]))
+    for _ in range(rng.choice([0, 1, 2, 4])):
+        body.append("<servicedir>/nonexistent/verif/services%d</servicedir>" % rng.randint(0, 5))
+    for _ in range(rng.choice([0, 0, 1, 2])):
+        body.append("<includedir>/nonexistent/verif/conf%d.d</includedir>" % rng.randint(0, 5))
+    if rng.random() < 0.3:
+        body.append('<include ignore_missing="yes">/nonexistent/verif/extra%d.conf</include>' % rng.randint(0, 5))
+    for name in rng.sample(_LIMIT_NAMES, rng.choice([0, 1, 3, 6, len(_LIMIT_NAMES)])):
+        body.append('<limit name="%s">%d</limit>' % (name, rng.choice([0, 1, 7, 1000, 65536, 2 ** 31 - 1])))
+    if rng.random() < 0.25:
+        body.append('<selinux><associate own="com.example.S%d" context="system_u:object_r:verif_t:s0"/></selinux>' % rng.randint(0, 9))
+    if rng.random() < 0.2:
+        body.append('<apparmor mode="%s"/>' % rng.choice(["disabled", "enabled"]))
+    try:
+        users = c06._users()
+        blocks = c06.gen_blocks(rng, c06._values(rng), users[:rng.randint(1, len(users))], users, rng.random() < 0.3)
+        from vf.models import policy as pm
+        body.append(pm.render(blocks))
+    except Exception:
+        body.append('<policy context="default"><allow user="*"/><allow own="*"/><deny send_interface="a.b" send_member="C"/></policy>')
+    r = rng.random()
+    if r < 0.25:
+        # one mistake: the fault-free parser must reject the file, and so must every faulted run (or report NoMemory)
+        body.insert(rng.randint(0, len(body)), rng.choice([
+            '<limit name="no_such_limit">5</limit>', '<limit name="max_message_size">-3</limit>', "<nonsense/>",
+            '<policy context="default"><allow send_member="X" receive_member="Y"/></policy>', '<policy user="no-such-user-verif"><deny/></policy>',
+            '<policy context="never"><allow own="*"/></policy>', "<listen></listen><listen>", '<policy context="default"><allow own="*" own_prefix="a.b"/></policy>',
+            '<auth>EXTERNAL', '<limit>7</limit>', '<policy context="default"><deny send_type="no_such_type"/></policy>',
+            '<include>/nonexistent/verif/required.conf</include>']))
+    rng.shuffle(body) if rng.random() < 0.5 else None
+    out += ["  " + b for b in body] + ["</busconfig>"]
+    text = "\n".join(out) + "\n"
+    return text if len(text) < 12000 else text[:0] + "<busconfig><type>session</type></busconfig>\n"
+
+
+
 def _h_indices(ts, values, out):
     for t, v in zip(ts, values):
         c = t.code
@@ -162,7 +229,9 @@ def fd_order(data, nfds):
 
 def gen_case(rng, stats):
     """Returns the harness line of one case."""
-    op = rng.choice(["copy"] * 3 + ["edit"] * 5 + ["build"] * 4 + ["demarshal"] * 2 + ["loader"] * 4 + ["matchrule"] * 2)
+    op = rng.choice(["copy"] * 3 + ["edit"] * 5 + ["build"] * 4 + ["demarshal"] * 2 + ["loader"] * 4 + ["matchrule"] * 2 + ["config"] * 2)
+    if op == "config":
+        return "config %d x%s" % (rng.randint(0, 1), _config_text(rng).encode().hex())
     warm = rng.randint(0, 1)
     if op == "copy":
         if rng.random() < 0.35:
@@ -612,6 +681,39 @@ class _Judge(object):
                 self.bad("wrong-error", "parse under an injected failure gives %r, reference %r" % (run["err"], refc), run)
             self.outcome(run, failed)
 
+    def config(self, runs):
+        ref = runs[0]
+        refc = "ok" if ref.get("cfg") is not None else ref["err"]
+        self.part.count("lib:config:reference-" + ("valid" if refc == "ok" else "rejected"))
+        if refc == NOMEM:
+            self.bad("nomem-without-fault", "fault-free configuration load reports NoMemory", ref)
+            return
+        for run in runs:
+            self.common(run)
+            failed = False
+            if run.get("cfg") is not None:
+                if refc != "ok":
+                    self.bad("accepted-under-fault", "configuration rejected without fault (%s) loads under an injected failure" % refc, run)
+                elif run["cfg"] != ref["cfg"]:
+                    want, got = self.blob(ref["cfg"]), self.blob(run["cfg"])
+                    fields = sorted(k for k in set(want) | set(got) if want.get(k) != got.get(k))
+                    self.bad("content-differs:" + ",".join(fields), "configuration loaded under an injected failure differs from the "
+                             "fault-free load in %s: %r instead of %r" % (fields, [got.get(k) for k in fields], [want.get(k) for k in fields]),
+                             run, expected=json.dumps(want)[:3000], got=json.dumps(got)[:3000], config=bytes.fromhex(self.line.split(" x", 1)[1]).decode("latin1")[:6000])
+            elif run["err"] == NOMEM:
+                failed = True
+                if not run["fired"]:
+                    self.bad("nomem-without-fault", "load reports NoMemory although no failure was injected", run)
+                rc = "ok" if run.get("retry") is not None else run["retry_err"]
+                if rc != refc:
+                    self.bad("retry-differs", "load retried after the failure gives %r, reference %r" % (rc, refc), run)
+                elif rc == "ok" and run["retry"] != ref["cfg"]:
+                    self.bad("retry-content-differs", "load retried after the failure gives other content than the reference", run)
+            elif run["err"] != refc:
+                self.bad("wrong-error:%s" % str(run["err"]).rsplit(".", 1)[-1],
+                         "load under an injected failure fails with %r, reference %r" % (run["err"], refc), run)
+            self.outcome(run, failed)
+
     def run(self):
         res, part = self.res, self.part
         tv = self.line.split(" ", 2)
@@ -710,7 +812,7 @@ def run_part(r, b, tier, seed, scale=1.0):
     r.require("lib:faults-fired", per * nshards * 8 if full else 1)
     if full:
         for op in OPS:
-            r.require("lib:" + op, 50)
+            r.require("lib:" + op, 50 if op != "config" else 30)
             r.require("lib:%s:failed-cleanly" % op, 50)
         r.require("lib:k-values-burst", 1000)
         r.require("lib:loader:runs-with-descriptors", 500)
